@@ -46,8 +46,10 @@ pub struct Sim {
     /// the elements that existed at the start or at the end of the last sort_new_items call: everything else is new,
     /// whatever position key it carries (a merged-in element must not smuggle in the key it had in its own file)
     pub known: std::collections::HashSet<Id>,
-    /// output order of the other modules of the project at the start
+    /// output order of the other modules of the project (as last observed after a sort_new_items call)
     pub others: Vec<Vec<Id>>,
+    /// elements pushed into the second module since the last sort_new_items call
+    pub new2: Vec<Id>,
     pub counter: u32,
     pub steps: u64,
 }
@@ -84,13 +86,33 @@ impl Sim {
         let placed = observe(g, &file)?.into_iter().filter(|x| um.get(x).copied().unwrap_or(0) != 0).collect();
         let known = um.keys().cloned().collect();
         let others = observe_others(g, &file)?;
-        Ok(Sim { file, placed, new: vec![], known, others, counter: 0, steps: 0 })
+        Ok(Sim { file, placed, new: vec![], known, others, new2: vec![], counter: 0, steps: 0 })
     }
 
     fn apply(&mut self, g: &Grammar, a: Act) -> Result<(), String> {
         self.steps += 1;
         match a {
             Act::S => guard(|| self.file.sort_new_items()).map_err(|p| format!("panic: {p}")),
+            Act::P(k) if k >= 100 => {
+                // push into the second module
+                use a2lfile::A2lObjectName;
+                if self.file.project.module.len() < 2 {
+                    return Ok(());
+                }
+                self.counter += 1;
+                let mut kk = 20000 + self.counter * 40;
+                let m = &mut self.file.project.module[1];
+                if k == 100 {
+                    let x = crate::gen_builders::build_Measurement(&mut kk, 1);
+                    self.new2.push(("MEASUREMENT".into(), x.get_name().to_string()));
+                    m.measurement.push(x);
+                } else {
+                    let x = crate::gen_builders::build_Characteristic(&mut kk, 1);
+                    self.new2.push(("CHARACTERISTIC".into(), x.get_name().to_string()));
+                    m.characteristic.push(x);
+                }
+                Ok(())
+            }
             Act::P(k) => {
                 let tag = push_kind(k);
                 self.counter += 1;
@@ -155,8 +177,25 @@ impl Sim {
         let out = observe(g, &self.file).map_err(|e| (if e.starts_with("panic") { "panic".to_string() } else { "invalid-output".to_string() }, e))?;
         if !self.others.is_empty() {
             let now = observe_others(g, &self.file).map_err(|e| ("invalid-output".to_string(), e))?;
-            if now != self.others {
+            // the elements that were there keep their order
+            let kept: Vec<Vec<Id>> = now.iter().zip(self.others.iter()).map(|(n, o)| n.iter().filter(|x| o.contains(x)).cloned().collect()).collect();
+            if kept != self.others {
                 return Err(("other-module-order-changed".into(), format!("after {a:?}: the children of another module of the project are written in another order: {:?}, before {:?}", now, self.others)));
+            }
+            if a == Act::S {
+                // what was pushed into the second module since the last call sits directly behind the last element of its kind
+                let mut expected = self.others[0].clone();
+                for x in &self.new2 {
+                    match expected.iter().rposition(|y| y.0 == x.0) {
+                        Some(p) => expected.insert(p + 1, x.clone()),
+                        None => expected.push(x.clone()),
+                    }
+                }
+                if now[0] != expected {
+                    return Err(("new-element-misplaced".into(), format!("after S: the second module is written as {:?}, expected {:?}", fmt_ids(&now[0].iter().collect::<Vec<_>>()), fmt_ids(&expected.iter().collect::<Vec<_>>()))));
+                }
+                self.others = now;
+                self.new2.clear();
             }
         }
         let uid_after = uid_map(&self.file);
@@ -454,6 +493,17 @@ pub fn run(tier: &str) -> Run {
         hists.push((allk, vec![p, Act::S, Act::S], true, "all-kinds"));
     }
     hists.push((allk, vec![Act::S; 40], true, "all-kinds"));
+    // pushes into the second module of a project (the first module gets nothing new, or something new as well)
+    if let Some(two) = starts.iter().position(|s| s.0 == "two-modules") {
+        for h in [
+            vec![Act::P(100), Act::S],
+            vec![Act::S, Act::P(100), Act::S, Act::P(101), Act::P(100), Act::S, Act::S],
+            vec![Act::P(0), Act::P(100), Act::S, Act::P(101), Act::S],
+            vec![Act::P(101), Act::P(1), Act::S, Act::P(100), Act::P(100), Act::S, Act::M(3), Act::P(100), Act::S],
+        ] {
+            hists.push((two, h, true, "second-module"));
+        }
+    }
     // several new elements of one kind per cycle on a large file: they share one position key for ever, so their
     // relative order rests on the stability of every later sort
     for k in 0..PUSH_KINDS.len() {
